@@ -20,7 +20,7 @@ MOD = "mc.props.C09"
 ARITH = {"add": operator.add, "sub": operator.sub, "mul": operator.mul, "truediv": operator.truediv}
 CMPS = {"lt": operator.lt, "le": operator.le, "gt": operator.gt, "ge": operator.ge, "eq": operator.eq, "ne": operator.ne}
 INPLACE = {"iadd": operator.iadd, "isub": operator.isub, "imul": operator.imul, "itruediv": operator.itruediv}
-RHS_KINDS = ["Vector", "Vector_other_nvec", "Array", "int", "float", "ndarray", "Quantity"]
+RHS_KINDS = ["Vector", "Vector_other_nvec", "Vector_other_nvec_b", "Array", "int", "float", "ndarray", "Quantity"]
 UNIT_PAIRS = [("m", "m"), ("m", "cm"), ("cm", "km"), ("m", "s"), ("dimensionless", "dimensionless"), ("g", "M_sun")]
 
 
@@ -137,8 +137,9 @@ def run_case(acc, idx, c):
             if kind == "Vector":
                 w, wc = make_vec(nvec, shape, np.float64, c["u2"], 1)
                 return v, comps, w, comp_arrays(wc, c["u2"])
-            if kind == "Vector_other_nvec":
-                n2 = nvec % 3 + 1
+            if kind in ("Vector_other_nvec", "Vector_other_nvec_b"):
+                # the two other component counts
+                n2 = nvec % 3 + 1 if kind == "Vector_other_nvec" else (nvec + 1) % 3 + 1
                 w, wc = make_vec(n2, shape, np.float64, c["u2"], 1)
                 return v, comps, w, None
             if kind == "Array":
@@ -157,7 +158,7 @@ def run_case(acc, idx, c):
         sw = _arr.snapshot(w)
         label = f"{opname}:{kind}"
         vres = outcome(lambda: op(v, w))
-        if kind == "Vector_other_nvec":
+        if kind in ("Vector_other_nvec", "Vector_other_nvec_b"):
             return compare_lifted(acc, idx, c, label, vres, [], must_raise=True), True
         # same operation on fresh component Arrays
         v2, comps2, w2, wcomps2 = operands()
